@@ -42,6 +42,8 @@ func jobsFor(cfg *config) []*Job {
 			add("c18-race-cold-t2", "t2", true, "c18", "cold", 3000, 300, 6)
 			jobs[len(jobs)-1].PerProc = 2
 			jobs[len(jobs)-2].PerProc = 2
+			add("c18-first-use", "t128", true, "c18", "coldherd", 8000, 400, 10)
+			jobs[len(jobs)-1].PerProc = 1
 		} else {
 			add("c18-race-t128", "t128", true, "c18", "", 5000, 120, 1)
 			add("c18-race-t2", "t2", true, "c18", "", 1500, 60, 2)
@@ -53,6 +55,8 @@ func jobsFor(cfg *config) []*Job {
 			add("c18-race-cold-t2", "t2", true, "c18", "cold", 300, 60, 6)
 			jobs[len(jobs)-1].PerProc = 2
 			jobs[len(jobs)-2].PerProc = 2
+			add("c18-first-use", "t128", true, "c18", "coldherd", 500, 60, 10)
+			jobs[len(jobs)-1].PerProc = 1
 		}
 	case "C06":
 		if thorough {
